@@ -35,6 +35,7 @@ type subRec struct {
 	subscribed  bool
 	unsubPlan   bool
 	stopRecv    bool // stop receiving as soon as Unsubscribe returned (C09 family)
+	slow        int  // milliseconds (fake clock) this subscriber takes per message
 	got         []delivery
 	ctlDone     bool
 	ctx         context.Context
@@ -125,6 +126,7 @@ func brokerWorkload(w *W, h *Hist, bs *brokerSetup, faults bool) ([]*pubRec, []*
 		sr.subRet = h.Tick()
 		sr.subscribed = true
 		stop := false
+		slow := sr.slow
 		simrt.Spawn(fmt.Sprintf("sub%d-recv", sr.id), func() {
 			for !stop {
 				v, ok := hrecv(ch)
@@ -132,6 +134,11 @@ func brokerWorkload(w *W, h *Hist, bs *brokerSetup, faults bool) ([]*pubRec, []*
 					return
 				}
 				sr.got = append(sr.got, delivery{v, h.Tick()})
+				if slow > 0 {
+					// a subscriber that keeps receiving, but takes its time
+					// (fake clock): everything upstream backs up meanwhile
+					simrt.Sleep("harness:slow-subscriber", time.Duration(slow)*time.Millisecond)
+				}
 			}
 		})
 		if sr.unsubPlan {
@@ -158,6 +165,9 @@ func brokerWorkload(w *W, h *Hist, bs *brokerSetup, faults bool) ([]*pubRec, []*
 	}
 	for s := 0; s < nSubs; s++ {
 		sr := &subRec{id: s, unsubPlan: simrt.Choose(3) == 0, stopRecv: faults && simrt.Choose(3) == 0}
+		if simrt.Choose(4) == 0 {
+			sr.slow = 1 + simrt.Choose(12)
+		}
 		sr.ctx, sr.cancel = context.WithCancel(w.Ctx)
 		delay := simrt.Choose(3)
 		unsubAt := simrt.Choose(150)
